@@ -181,6 +181,11 @@ func (plugin) CallStack(data interface{}) map[string]interface{} {
 					simrt.Sleep(time.Duration(h.DelayMs) * time.Millisecond)
 				}
 				if h.Fail {
+					if h.Critical {
+						w.c.Count("fault.critical_hook_fails")
+					} else {
+						w.c.Count("fault.noncritical_hook_fails")
+					}
 					call.VarStack["__call_error"] = "probe " + h.Name + " failed on purpose"
 				}
 			}
@@ -480,6 +485,7 @@ func body(c *hk.Ctx) {
 					}
 					w.add(&rec{kind: "body-end", name: r.Event})
 					if r.BodyFail {
+						w.c.Count("fault.task_transition_fails")
 						return fmt.Errorf("tasks failed to %s", r.Event)
 					}
 					return nil
@@ -530,6 +536,7 @@ type bracket struct {
 	start, end int
 	outcome    string // completed | error | impossible
 	state      string // state published with the closing event
+	startState string // state published with the "transition starting" event
 	errS       string
 	recs       []*rec
 	momentSeq  map[string]int // moment -> seq of its "transition step starting" event
@@ -608,7 +615,7 @@ func check(c *hk.Ctx, w *world, sc *scenario, env *environment.Environment, prop
 				viol("C01", "mutual-exclusion", "overlapping:"+open.event+"+"+r.name, "transition %s started (seq %d) while %s (started at seq %d) was still in progress", r.name, r.seq, open.event, open.start)
 				return
 			}
-			open = &bracket{event: r.name, start: r.seq, momentSeq: map[string]int{}}
+			open = &bracket{event: r.name, start: r.seq, startState: r.state, momentSeq: map[string]int{}}
 			continue
 		}
 		if r.kind == "ev" && (r.msg == "transition completed successfully" || r.msg == "transition error" || r.msg == "transition impossible") {
@@ -655,12 +662,17 @@ func check(c *hk.Ctx, w *world, sc *scenario, env *environment.Environment, prop
 		bodyAfterGroup      int
 	}
 	infos := make([]*brInfo, len(brs))
-	prevEnd := 0
+	prevEnd, prevStart := 0, 0
 	for bi, b := range brs {
 		if forcedBetween(prevEnd, b.start) {
 			state = "ERROR"
+		} else if forcedBetween(prevStart, prevEnd+1) && b.startState != "" {
+			// a forced ERROR was completed while the previous request was being handled (forcing is
+			// not serialised with transitions): whichever wrote last decides; the state this
+			// transition published when it started is taken
+			state = b.startState
 		}
-		prevEnd = b.end
+		prevEnd, prevStart = b.end, b.start
 		if forceOverlaps(b.start, b.end) && !legal(b.event, state) != (b.outcome != "completed") {
 			// a forced ERROR landed while this request was being serialised: take the state it saw
 			if b.outcome == "completed" || len(b.momentSeq) > 0 {
@@ -881,14 +893,16 @@ func check(c *hk.Ctx, w *world, sc *scenario, env *environment.Environment, prop
 
 	// ---- pass E: outcome and resulting state ----
 	state = "STANDBY"
-	prevEnd = 0
+	prevEnd, prevStart = 0, 0
 	for bi, b := range brs {
 		inf := infos[bi]
 		if forcedBetween(prevEnd, b.start) {
 			state = "ERROR"
+		} else if forcedBetween(prevStart, prevEnd+1) && b.startState != "" {
+			state = b.startState // as in pass B: a force completed while the previous request was handled
 		}
 		forcedDuring := forceOverlaps(b.start, b.end)
-		prevEnd = b.end
+		prevEnd, prevStart = b.end, b.start
 		if forcedDuring {
 			// a forced ERROR raced with this transition: its published state may be ERROR or the
 			// regular outcome; nothing is asserted about it here
